@@ -104,6 +104,9 @@ func c17(r *Report) propMeta {
 	r.Rule("C17.lint", "E8 module lint: no nondeterminism / process-local state in x/tunnel")
 	r.ModuleLint("module-lint", "tunnel", 20)
 
+	// a handler that swallows an error commits partial state (C13.R8)
+	r.Include("C13", "C13.R8")
+
 	return propMeta{
 		Decided: []string{
 			"R1 every tunnel msgServer method whose request carries Creator+TunnelID (5 today, new ones checked automatically) gates every keeper write by msg.Creator == GetTunnel(msg.TunnelID).Creator",
